@@ -106,7 +106,7 @@ def run_case(case, api):
         if nm in case and case[nm] is not None:
             setv("__" + nm, case[nm], intrep)
     src = render(case, setv)
-    out = api.eval_outcome(ctx, src, wall=case.get("wall", 3.0), cap=200_000)
+    out = api.eval_outcome(ctx, src, wall=case.get("wall", 5.0), cap=200_000)
     if out["o"] == "value":
         if len(got) != 1 or len(got[0]) != 2:
             out = {"o": "host", "type": "NoOutcome", "where": "driver", "msg": "got %d outputs" % len(got)}
